@@ -4,6 +4,10 @@ import Pycoin.Proofs.RFC6979
 import Pycoin.Proofs.CurveFacts.secp256k1
 import Pycoin.Proofs.CurveFacts.secp256r1
 import Pycoin.Proofs.CurveFacts.Order
+import Pycoin.Proofs.NativeGen
+import Pycoin.Proofs.NativeFacts
+import Pycoin.Proofs.NativeSecp
+import Pycoin.Proofs.NativeSecpGen
 /-!
 C01 — ECDSA: deterministic signatures verify for the signer and for nobody else.  Property theorems; helper
 lemmas in `Proofs/ECDSA.lean` (on top of the C02 refinement of the group law).
@@ -232,3 +236,218 @@ theorem C01_recover_sound_secp256r1 (bf bf' z r s : Int) (par : Option Int) (hz 
     (no_root_secp256r1 _) (fun _ _ => order_all_secp256r1 _)
 
 end Pycoin.Gen.Curves
+
+/-! ## the native-accelerated classes ("whichever arithmetic backend is active")
+
+`Generator.verify`, `sign_with_recid`, `sign`, `possible_public_pairs_for_signature` call `self.inverse_mod`,
+`self.multiply`, `self.raw_mul` / `self.__mul__`, which the OpenSSL mixin (`native/openssl.py`) and the libsecp256k1 mixin
+(`native/secp256k1.py`, which also overrides `sign` and `verify` themselves) replace.  `Model/NativeCurve.lean` is that
+code over an explicit method table (`Gen.*`), with the glue of both mixins modelled statement by statement and the C
+libraries as PARAMETERS.  What the libraries are assumed to do is the hypothesis `LibCryptoOk L c` / `LibSecpOk S c`
+(trusted base, stated as hypotheses, never axioms).  OpenSSL: the glue model is run against the real class on every run
+and the contract is probed on the real library.  libsecp256k1: ABSENT from the sandbox — model and contract are tied to
+the source and to the library's documentation by reading only. -/
+namespace Pycoin.Native
+open Pycoin Pycoin.Curve
+
+section generic
+variable {c : CurveParams} [Good c]
+
+/-- the generic code over a method table, with the pure methods, is the pure model the theorems above are about -/
+theorem C01_methods_pure (bf : Int) (genK : Nat → Int → Int → Except Err Int) (Q : Pt) (d z r s : Int) (par : Option Int) :
+    Gen.verify (pureMethods c) c bf Q z r s = Curve.verify c bf Q z r s ∧
+    Gen.signWithRecid (pureMethods c) c bf genK d z = Curve.signWithRecid c bf genK d z ∧
+    Gen.sign (pureMethods c) c bf genK d z = Curve.sign c bf genK d z ∧
+    Gen.possiblePublicPairsForSignature (pureMethods c) c bf z r s par = Curve.possiblePublicPairsForSignature c bf z r s par :=
+  ⟨Gen.verify_pure c bf Q z r s, Gen.signWithRecid_pure c bf genK d z, Gen.sign_pure c bf genK d z,
+    Gen.recover_pure c bf z r s par⟩
+
+variable {L : LibCrypto}
+
+/-- **verify through the OpenSSL class = verify of the pure class**, for every reduced curve point `Q` of the `n`-torsion and
+ALL `z`, `r`, `s` (out-of-range and `z = 0` included) — so `C01_verify_iff_*` holds verbatim for the OpenSSL class -/
+theorem C01_native_openssl_verify (hL : LibCryptoOk L c) (fits : CurveFits c) (ok : ECDSAOk c) (bf : Int) (Q : Pt)
+    (hQ : OnCurve c Q) (rQ : Reduced c Q) (hQn : (c.n : Int) • toPoint c Q = 0) (z r s : Int) :
+    Gen.verify (Ossl.methods L c) c bf Q z r s = Curve.verify c bf Q z r s := by
+  obtain ⟨den, spec⟩ := hL
+  exact ossl_verify_eq spec fits ok bf Q hQ rQ hQn z r s
+
+/-- **sign_with_recid through the OpenSSL class = that of the pure class**: same `(r, s, recid)`, same exceptions, for every
+`d`, `z` and every `gen_k` whose nonce is at most `2n` in absolute value -/
+theorem C01_native_openssl_sign (hL : LibCryptoOk L c) (fits : CurveFits c) (ok : ECDSAOk c) (bf : Int)
+    (genK : Nat → Int → Int → Except Err Int) (d z : Int) (hk : ∀ k, genK c.n d z = .ok k → k.natAbs ≤ 2 * c.n) :
+    Gen.signWithRecid (Ossl.methods L c) c bf genK d z = Curve.signWithRecid c bf genK d z ∧
+    Gen.sign (Ossl.methods L c) c bf genK d z = Curve.sign c bf genK d z := by
+  obtain ⟨den, spec⟩ := hL
+  exact ⟨ossl_signWithRecid_eq spec fits ok bf genK d z hk, ossl_sign_eq spec fits ok bf genK d z hk⟩
+
+/-- … with the default RFC 6979 nonce no side condition is left: the nonce lies in `[1, n)` -/
+theorem C01_native_openssl_sign_rfc6979 (hL : LibCryptoOk L c) (fits : CurveFits c) (ok : ECDSAOk c) (bf d z : Int) :
+    Gen.signWithRecid (Ossl.methods L c) c bf Pycoin.RFC6979.deterministicGenerateK d z =
+      Pycoin.RFC6979.signWithRecid c bf d z :=
+  (C01_native_openssl_sign hL fits ok bf _ d z (fun k h => by
+    have := deterministicGenerateK_range c.n d z k h
+    omega)).1
+
+/-- **recovery through the OpenSSL class = recovery of the pure class**, every `z`, `s`, parity, every `r ≥ 0` (in range
+or not, `r ≡ 0 (mod n)` included: `AssertionError` in both since the repair of `inverse_mod`), when the curve points with
+abscissa `r` are killed by `n` -/
+theorem C01_native_openssl_recover (hL : LibCryptoOk L c) (fits : CurveFits c) (ok : ECDSAOk c) (bf z r s : Int)
+    (par : Option Int) (hr0 : 0 ≤ r)
+    (htors : ∀ y, containsXY c r y = true → (c.n : Int) • toPoint c (some (r, y)) = 0) :
+    Gen.possiblePublicPairsForSignature (Ossl.methods L c) c bf z r s par =
+      Curve.possiblePublicPairsForSignature c bf z r s par := by
+  obtain ⟨den, spec⟩ := hL
+  exact ossl_recover_eq spec fits ok bf z r s par hr0 htors
+
+variable {S : LibSecp256k1}
+
+/-- **libsecp256k1 `verify` = `Generator.verify`** for an affine reduced curve point `Q` of the `n`-torsion, `1 ≤ z < 2²⁵⁶`,
+`0 ≤ r, s < 2²⁵⁶` (so every `r`, `s ∉ [1, n−1]` in that range is rejected, high-S signatures are accepted like low-S ones) -/
+theorem C01_native_libsecp_verify (hS : LibSecpOk S c) (ok : ECDSAOk c) (hp256 : c.p ≤ 2 ^ 256) (bf qx qy : Int)
+    (hQ : containsXY c qx qy = true) (rQ : Reduced c (some (qx, qy)))
+    (hQn : (c.n : Int) • toPoint c (some (qx, qy)) = 0) (z r s : Int) (hz1 : 1 ≤ z) (hz2 : z < 2 ^ 256)
+    (hr0 : 0 ≤ r) (hr2 : r < 2 ^ 256) (hs0 : 0 ≤ s) (hs2 : s < 2 ^ 256) :
+    Secp.verify S (some (qx, qy)) z r s = Curve.verify c bf (some (qx, qy)) z r s := by
+  obtain ⟨denP, denS, spec⟩ := hS
+  exact secp_verify_eq spec ok hp256 bf qx qy hQ rQ hQn z r s hz1 hz2 hr0 hr2 hs0 hs2
+
+omit [Good c] in
+/-- outside `[0, 2²⁵⁶)` the glue's `to_bytes_32` raises `OverflowError` where the pure `verify` returns `False`: the two
+backends differ there (`r` negative or `≥ 2²⁵⁶` cannot come out of a DER signature of 32-byte integers, but can be passed
+to `Generator.verify` directly) -/
+theorem C01_native_libsecp_verify_overflow (Q : Pt) (z r s : Int) (h : r < 0 ∨ 2 ^ 256 ≤ r) :
+    Secp.verify S Q z r s = .error .overflow :=
+  secp_verify_overflow Q z r s h
+
+/-- **libsecp256k1 `sign` agrees with `Generator.sign` up to `s ↔ n − s`** (explicit `gen_k`): when the nonce `k ∈ [1, n)`
+gives `r ≠ 0`, `s ≠ 0`, the pure class returns `(r, s)` and the libsecp256k1 class `(r, s)` or `(r, n − s)`, whichever is
+low-S — exactly the normalisation the property allows -/
+theorem C01_native_libsecp_sign_genk (hS : LibSecpOk S c) (ok : ECDSAOk c)
+    (g : Nat → Int → Int → Except Err Int) (bf d z k x y ki : Int) (hz1 : 1 ≤ z) (hz2 : z < 2 ^ 256)
+    (hd1 : 1 ≤ d) (hd2 : d < c.n) (hk : g c.n d z = .ok k) (hk1 : 1 ≤ k) (hk2 : k < c.n)
+    (hm : mulG c bf k = .ok (some (x, y))) (hki : inverseN c k = .ok ki)
+    (hr : x % c.n ≠ 0) (hs : (ki * (z + d * (x % c.n) % c.n)) % c.n ≠ 0) :
+    ∃ r s s', Curve.sign c bf g d z = .ok (r, s) ∧ Secp.sign S c (some g) d z = .ok (r, s') ∧
+      (s' = s ∨ s' = (c.n : Int) - s) ∧ s' ≤ (c.n : Int) / 2 := by
+  obtain ⟨denP, denS, spec⟩ := hS
+  obtain ⟨h1, h2⟩ := secp_sign_genk spec ok g bf d z k x y ki hz1 hz2 hd1 hd2 hk hk1 hk2 hm hki hr hs
+  have hnpos : (0 : Int) < c.n := by exact_mod_cast ok.nprime.pos
+  have hs0 := Int.emod_nonneg (ki * (z + d * (x % c.n) % c.n)) hnpos.ne'
+  obtain ⟨-, -, l3, l4⟩ := lowS_le ok (s := (ki * (z + d * (x % c.n) % c.n)) % (c.n : Int)) (by omega)
+    (Int.emod_lt_of_pos _ hnpos)
+  exact ⟨_, _, _, h1, h2, l4, l3⟩
+
+/-- … and with the default nonce (`gen_k=None`: the library's RFC 6979 against pycoin's `deterministic_generate_k`), for a
+32-byte hash with `1 ≤ z < n` -/
+theorem C01_native_libsecp_sign_rfc6979 (hS : LibSecpOk S c) (ok : ECDSAOk c) (bf : Int) (d : Nat) (h1 : Bytes)
+    (hh : h1.length = 32) (hz1 : 1 ≤ beNat h1) (hzn : beNat h1 < c.n) (hd1 : 1 ≤ d) (hd2 : d < c.n)
+    (k : Nat) (hk : Spec.RFC6979.generateK Pycoin.RFC6979.defaultFuel c.n d h1 = some k)
+    (x y ki : Int) (hm : mulG c bf k = .ok (some (x, y))) (hki : inverseN c k = .ok ki)
+    (hr : x % c.n ≠ 0) (hs : (ki * ((beNat h1 : Int) + d * (x % c.n) % c.n)) % c.n ≠ 0) :
+    ∃ r s s', Pycoin.RFC6979.sign c bf d (beNat h1) = .ok (r, s) ∧ Secp.sign S c none d (beNat h1) = .ok (r, s') ∧
+      (s' = s ∨ s' = (c.n : Int) - s) ∧ s' ≤ (c.n : Int) / 2 := by
+  obtain ⟨denP, denS, spec⟩ := hS
+  obtain ⟨g1, g2⟩ := secp_sign_default spec ok bf d h1 hh hz1 hzn hd1 hd2 k hk x y ki hm hki hr hs
+  have hnpos : (0 : Int) < c.n := by exact_mod_cast ok.nprime.pos
+  have hs0 := Int.emod_nonneg (ki * ((beNat h1 : Int) + d * (x % c.n) % c.n)) hnpos.ne'
+  obtain ⟨-, -, l3, l4⟩ := lowS_le ok (s := (ki * ((beNat h1 : Int) + d * (x % c.n) % c.n)) % (c.n : Int)) (by omega)
+    (Int.emod_lt_of_pos _ hnpos)
+  exact ⟨_, _, _, g1, g2, l4, l3⟩
+
+/-- the methods the libsecp256k1 mixin does NOT override, in the class with both mixins
+(`GeneratorWithOptimizations(LibSECP256K1Optimizations, <OpenSSL mixin>, Generator)`: `k * self` and `int * Point` go to
+libsecp256k1, `inverse_mod` and hence `Curve.add` to OpenSSL): **`sign_with_recid` and recovery equal the pure class's**,
+under both contracts -/
+theorem C01_native_libsecp_signWithRecid (hL : LibCryptoOk L c) (hS : LibSecpOk S c) (fits : CurveFits c) (ok : ECDSAOk c)
+    (hp256 : c.p ≤ 2 ^ 256) (bf : Int) (genK : Nat → Int → Int → Except Err Int) (d z : Int)
+    (hk : ∀ k, genK c.n d z = .ok k → k.natAbs ≤ 2 * c.n) :
+    Gen.signWithRecid (Secp.methods S c (Ossl.methods L c)) c bf genK d z = Curve.signWithRecid c bf genK d z := by
+  obtain ⟨den, spec⟩ := hL
+  obtain ⟨denP, denS, specS⟩ := hS
+  exact secpM_signWithRecid_eq spec specS fits ok hp256 bf genK d z hk
+
+theorem C01_native_libsecp_recover (hL : LibCryptoOk L c) (hS : LibSecpOk S c) (fits : CurveFits c) (ok : ECDSAOk c)
+    (hp256 : c.p ≤ 2 ^ 256) (bf z r s : Int) (par : Option Int) (hr0 : 0 ≤ r)
+    (htors : ∀ y, containsXY c r y = true → (c.n : Int) • toPoint c (some (r, y)) = 0) :
+    Gen.possiblePublicPairsForSignature (Secp.methods S c (Ossl.methods L c)) c bf z r s par =
+      Curve.possiblePublicPairsForSignature c bf z r s par := by
+  obtain ⟨den, spec⟩ := hL
+  obtain ⟨denP, denS, specS⟩ := hS
+  exact secpM_recover_eq spec specS fits ok hp256 bf z r s par hr0 htors
+
+end generic
+
+open Pycoin.Gen.Curves
+
+/-! ### on the shipped curves no torsion hypothesis is left (`#E(F_p) = n`) -/
+
+theorem C01_native_openssl_verify_secp256k1 {L : LibCrypto} (hL : LibCryptoOk L secp256k1) (bf : Int) (Q : Pt)
+    (hQ : OnCurve secp256k1 Q) (rQ : Reduced secp256k1 Q) (z r s : Int) :
+    Gen.verify (Ossl.methods L secp256k1) secp256k1 bf Q z r s = Curve.verify secp256k1 bf Q z r s :=
+  C01_native_openssl_verify hL curveFits_secp256k1 ecdsaOk_secp256k1 bf Q hQ rQ (order_all_secp256k1 _) z r s
+
+theorem C01_native_openssl_verify_secp256r1 {L : LibCrypto} (hL : LibCryptoOk L secp256r1) (bf : Int) (Q : Pt)
+    (hQ : OnCurve secp256r1 Q) (rQ : Reduced secp256r1 Q) (z r s : Int) :
+    Gen.verify (Ossl.methods L secp256r1) secp256r1 bf Q z r s = Curve.verify secp256r1 bf Q z r s :=
+  C01_native_openssl_verify hL curveFits_secp256r1 ecdsaOk_secp256r1 bf Q hQ rQ (order_all_secp256r1 _) z r s
+
+theorem C01_native_openssl_sign_secp256k1 {L : LibCrypto} (hL : LibCryptoOk L secp256k1) (bf d z : Int) :
+    Gen.signWithRecid (Ossl.methods L secp256k1) secp256k1 bf Pycoin.RFC6979.deterministicGenerateK d z =
+      Pycoin.RFC6979.signWithRecid secp256k1 bf d z :=
+  C01_native_openssl_sign_rfc6979 hL curveFits_secp256k1 ecdsaOk_secp256k1 bf d z
+
+theorem C01_native_openssl_sign_secp256r1 {L : LibCrypto} (hL : LibCryptoOk L secp256r1) (bf d z : Int) :
+    Gen.signWithRecid (Ossl.methods L secp256r1) secp256r1 bf Pycoin.RFC6979.deterministicGenerateK d z =
+      Pycoin.RFC6979.signWithRecid secp256r1 bf d z :=
+  C01_native_openssl_sign_rfc6979 hL curveFits_secp256r1 ecdsaOk_secp256r1 bf d z
+
+theorem C01_native_openssl_recover_secp256k1 {L : LibCrypto} (hL : LibCryptoOk L secp256k1) (bf z r s : Int)
+    (par : Option Int) (hr0 : 0 ≤ r) :
+    Gen.possiblePublicPairsForSignature (Ossl.methods L secp256k1) secp256k1 bf z r s par =
+      Curve.possiblePublicPairsForSignature secp256k1 bf z r s par :=
+  C01_native_openssl_recover hL curveFits_secp256k1 ecdsaOk_secp256k1 bf z r s par hr0 (fun _ _ => order_all_secp256k1 _)
+
+theorem C01_native_openssl_recover_secp256r1 {L : LibCrypto} (hL : LibCryptoOk L secp256r1) (bf z r s : Int)
+    (par : Option Int) (hr0 : 0 ≤ r) :
+    Gen.possiblePublicPairsForSignature (Ossl.methods L secp256r1) secp256r1 bf z r s par =
+      Curve.possiblePublicPairsForSignature secp256r1 bf z r s par :=
+  C01_native_openssl_recover hL curveFits_secp256r1 ecdsaOk_secp256r1 bf z r s par hr0 (fun _ _ => order_all_secp256r1 _)
+
+/-- libsecp256k1 `verify` on secp256k1, every affine reduced curve point -/
+theorem C01_native_libsecp_verify_secp256k1 {S : LibSecp256k1} (hS : LibSecpOk S secp256k1) (bf qx qy : Int)
+    (hQ : containsXY secp256k1 qx qy = true) (rQ : Reduced secp256k1 (some (qx, qy)))
+    (z r s : Int) (hz1 : 1 ≤ z) (hz2 : z < 2 ^ 256) (hr0 : 0 ≤ r) (hr2 : r < 2 ^ 256) (hs0 : 0 ≤ s) (hs2 : s < 2 ^ 256) :
+    Secp.verify S (some (qx, qy)) z r s = Curve.verify secp256k1 bf (some (qx, qy)) z r s :=
+  C01_native_libsecp_verify hS ecdsaOk_secp256k1 (by decide +kernel) bf qx qy hQ rQ (order_all_secp256k1 _) z r s
+    hz1 hz2 hr0 hr2 hs0 hs2
+
+/-- non-vacuity of the contract on libcrypto (an executable instance; the same witnesses as in C02) -/
+theorem C01_native_openssl_contract_satisfiable :
+    LibCryptoOk (pureLib secp256k1) secp256k1 ∧ LibCryptoOk (pureLib secp256r1) secp256r1 :=
+  ⟨pureLib_ok_secp256k1, pureLib_ok_secp256r1⟩
+
+/-- non-vacuity of the contract on libsecp256k1: an executable instance (the pure model playing the library) satisfies it -/
+theorem C01_native_libsecp_contract_satisfiable : LibSecpOk (pureSecp secp256k1) secp256k1 := pureSecp_ok_secp256k1
+
+/-! evaluated examples (tests): the libsecp256k1 glue model over the pure-model library — a signature is low-S, verifies,
+its high-S twin verifies too, out-of-range `r` is an `OverflowError`, an out-of-curve key is `False` -/
+section examples
+def exSig := Secp.sign (pureSecp secp256k1) secp256k1 none 12345 987654321
+#guard (match exSig, Pycoin.RFC6979.sign secp256k1 0 12345 987654321 with
+  | .ok (r, s), .ok (r', s') => r == r' && (s == s' || s == (secp256k1.n : Int) - s') && decide (s ≤ (secp256k1.n : Int) / 2)
+  | _, _ => false)
+#guard (match exSig, Curve.mulG secp256k1 0 12345 with
+  | .ok (r, s), .ok Q =>
+      (Secp.verify (pureSecp secp256k1) Q 987654321 r s matches .ok true) &&
+      (Secp.verify (pureSecp secp256k1) Q 987654321 r ((secp256k1.n : Int) - s) matches .ok true) &&
+      (Secp.verify (pureSecp secp256k1) Q 987654322 r s matches .ok false) &&
+      (Secp.verify (pureSecp secp256k1) Q 987654321 (r + 2 ^ 256) s matches .error .overflow) &&
+      (Secp.verify (pureSecp secp256k1) (some (1, 1)) 987654321 r s matches .ok false)
+  | _, _ => false)
+#guard Secp.mul (pureSecp secp256k1) secp256k1 (secp256k1.n + 5) == Curve.mulG secp256k1 77 5
+#guard Secp.multiply (pureSecp secp256k1) secp256k1 (some (secp256k1.gx + secp256k1.p, secp256k1.gy)) 3 matches .error .overflow
+#guard Secp.multiply (pureSecp secp256k1) secp256k1 (some (1, 1)) 3 matches .ok .pyFalse
+end examples
+
+end Pycoin.Native
